@@ -47,6 +47,13 @@ def main():
             ["dec", "0", "1"], ["int", "100000000000000000000000", "1"], ["float", "1", "1267650600228229401496703205376"]]
     for _ in range(250 if quick else 4000):
         quantities.append({"m": rng.choice(MAGS), "u": rand_spec() if rng.random() < 0.7 else [[rng.choice([None] + prefixes), rng.choice(names), 1]]})
+    # numerically equal magnitudes of different types, one after the other in one process: each keeps its own type and text
+    seqs = []
+    for un in ("meter", "second", "gram"):
+        for trio in ((["int", "3", "1"], ["float", "3", "1"], ["dec", "3", "1"]), (["dec", "1000", "1"], ["int", "1000", "1"], ["float", "1000", "1"]),
+                     (["float", "0", "1"], ["int", "0", "1"], ["dec", "0", "1"]), (["dec", "5", "2"], ["float", "5", "2"])):
+            for m in trio: seqs.append({"m": m, "u": [[None, un, 1]]})
+    quantities = seqs + quantities
     extra_prefixes = [[a, b, op] for a in ("kilo", "mebi", "milli", "kibi") for b in ("kibi", "mega", "kilo", "pebi") for op in ("mul", "div") if (a in prefixes and b in prefixes)] + [[10, 7], [2, 5], [10, -5], [7, 3], [1, 3], [1, -2]]
     # units under anonymous prefixes, including prefixes of value 1 that are not the identity prefix (base 1)
     for ap in ([10, 7], [2, 5], [7, 3], [1, 3], [1, -2], [10, -5]):
